@@ -540,7 +540,8 @@ Definition to_bytes (t : table) : list N := encode (to_doc t).
 (* ------------------------------------------------------------------------------------------------ *)
 (* L1: the reader, read_fits_core as written *)
 
-Definition reserved (key : str) : bool := existsb (fun p => starts_with p key) reserved_prefixes.
+Definition reserved (key : str) : bool :=
+  existsb (fun p => starts_with p key) reserved_prefixes || existsb (fun e => str_eqb e key) reserved_exact.
 
 (* cfitsio fftrec via ffgkyn: keyword names with characters outside 32..126 make fits_read_keyn fail (card skipped) *)
 Definition key_legal (key : str) : bool := forallb (fun c => (32 <=? c) && (c <=? 126)) key.
